@@ -14,18 +14,34 @@ Variable sha1 : bytes -> bytes.
 Variable blk_dec : N -> bytes -> bytes -> bytes.
 Variable zdecomp : N -> bytes -> N -> option bytes.
 
-(* For every configuration and group map, every history of decode requests (any credentials, any retry values, any
-   clients, any outcomes, replies delivered or undeliverable - HDecode / HDecodeLost) and purge events after the record
-   k was made: a later first-attempt presentation that authenticates,
-   is authorized and lies inside the time window — hence at any second up to and including the last valid one —
-   is answered 'replayed' and changes nothing, provided the purges happened at clock readings not beyond that
-   presentation's (a non-decreasing clock). *)
-Theorem C07_replayed_until_last_valid_second : forall cf mem rs0 h m pu pg now m' k,
+(* A decode is not atomic in time: it reads the clock when the request is received (t1: time-window check) and again at
+   its replay step (t2, after replay_insert).  Events are linearised at their replay step / at the purge; the ONLY
+   assumption on time is clock_ok: event times non-decreasing along the history (forward jumps allowed) and t1 <= t2
+   within a decode.  Purges may fall anywhere, in particular between t1 and t2 of the request under consideration.
+   For every configuration and group map, every history of decode requests (any credentials, any retry values, any
+   clients, any outcomes, replies delivered or undeliverable) and purge events after the record k was made: a later
+   first-attempt presentation that authenticates, is authorized and was inside the time window when received is NEVER
+   accepted: it is answered 'replayed' while the record is there, and 'expired' when a purge has discarded it (which
+   happens only after the last valid second, and then the replay step is after it too). *)
+Theorem C07_second_presentation_never_accepted : forall cf mem rs0 h m pu pg t1 t2 m' k,
   In k rs0 ->
-  (forall p, In (HPurge p) h -> p <= u32 now) ->
-  dec_pre hmac sha1 blk_dec zdecomp cf mem m pu pg now = inr (m', k) -> m_retry m = 0 ->
+  clock_ok (h ++ [HDecode m pu pg t1 t2]) ->
+  dec_pre hmac sha1 blk_dec zdecomp cf mem m pu pg t1 = inr (m', k) -> m_retry m = 0 ->
   let rs := hrun hmac sha1 blk_dec zdecomp cf mem rs0 h in
-  dec_process hmac sha1 blk_dec zdecomp cf mem rs m pu pg now = (dec_finish (set_err m' e_cred_replayed None), rs, None).
+  dec_process2 hmac sha1 blk_dec zdecomp cf mem rs m pu pg t1 t2
+    = (dec_finish (set_err m' e_cred_replayed None), rs, None) \/
+  (snd k < t2 /\ dec_process2 hmac sha1 blk_dec zdecomp cf mem rs m pu pg t1 t2
+                 = (dec_finish (set_err m' e_cred_expired None), k :: rs, None)).
+Proof. exact (second_presentation_never_accepted hmac sha1 blk_dec zdecomp). Qed.
+
+(* ... and up to and including the last valid second (replay step not after the record's expiry) the record has
+   survived every purge: the answer is 'replayed' and nothing changes *)
+Theorem C07_replayed_until_last_valid_second : forall cf mem rs0 h m pu pg t1 t2 m' k,
+  In k rs0 ->
+  clock_ok (h ++ [HDecode m pu pg t1 t2]) -> t2 <= snd k ->
+  dec_pre hmac sha1 blk_dec zdecomp cf mem m pu pg t1 = inr (m', k) -> m_retry m = 0 ->
+  let rs := hrun hmac sha1 blk_dec zdecomp cf mem rs0 h in
+  dec_process2 hmac sha1 blk_dec zdecomp cf mem rs m pu pg t1 t2 = (dec_finish (set_err m' e_cred_replayed None), rs, None).
 Proof. exact (replayed_until_last_valid_second hmac sha1 blk_dec zdecomp). Qed.
 
 (* the key's expiry is the last second the time check admits: an accepted presentation is never later *)
@@ -33,6 +49,7 @@ Theorem C07_accept_implies_not_after_expiry : forall cf mem m pu pg now m' k,
   dec_pre hmac sha1 blk_dec zdecomp cf mem m pu pg now = inr (m', k) -> u32 now <= snd k /\ m_retry m' = m_retry m.
 Proof. exact (dec_pre_accept_time hmac sha1 blk_dec zdecomp). Qed.
 End C07p.
+Print Assumptions C07_second_presentation_never_accepted.
 Print Assumptions C07_replayed_until_last_valid_second.
 Print Assumptions C07_accept_implies_not_after_expiry.
 
@@ -41,3 +58,54 @@ Theorem C07_purge_discards_exactly_expired : forall now rs k,
   In k (r_purge now rs) <-> In k rs /\ now <= snd k.
 Proof. exact purge_discards_exactly_expired. Qed.
 Print Assumptions C07_purge_discards_exactly_expired.
+
+(* the rule BEFORE repair 41b6e44 (time check against the receipt clock only; CredHistory.dec_process_stale) violates
+   C07_second_presentation_never_accepted: toy credential encoded at 5000 with TTL 60, X = 5060 its last valid second;
+   A = first attempt received and processed at X: success; purge at X + 1 discards the record; C = first attempt received
+   at X whose replay step is at X + 1.  clock_ok and every premise hold; under the old rule C is accepted a SECOND time,
+   under the model's rule it is answered 'expired' with the reply's fields intact (a soft error).  Also the non-vacuity
+   example of the theorems above (computed inside Coq). *)
+From MV Require Import RetryProofs.
+Theorem C07_stale_time_refuted :
+  let pre := dec_pre toy_hmac (fun x => x) toy_blk (fun _ x _ => Some x) cf_std (fun _ _ => false) in
+  let stale := dec_process_stale toy_hmac (fun x => x) toy_blk (fun _ x _ => Some x) cf_std (fun _ _ => false) in
+  let new := dec_process2 toy_hmac (fun x => x) toy_blk (fun _ x _ => Some x) cf_std (fun _ _ => false) in
+  let A := HDecode (req toy_cred 0) 7 8 5060 5060 in
+  let P := HPurge 5061 in
+  let C := req toy_cred 0 in
+  (exists mA' m' k, pre (req toy_cred 0) 7 8 5060 = inr (mA', k) /\ pre C 7 8 5060 = inr (m', k) /\ snd k = 5060) /\
+  m_retry C = 0 /\ clock_ok ([A; P] ++ [HDecode C 7 8 5060 5061]) /\
+  (let rs := hrun_stale toy_hmac (fun x => x) toy_blk (fun _ x _ => Some x) cf_std (fun _ _ => false) [] [A; P] in
+   rs = [] /\ m_err (fst (fst (stale rs C 7 8 5060))) = e_success) /\
+  (let rs := hrun toy_hmac (fun x => x) toy_blk (fun _ x _ => Some x) cf_std (fun _ _ => false) [] [A; P] in
+   rs = [] /\ let r := fst (fst (new rs C 7 8 5060 5061)) in
+              m_err r = e_cred_expired /\ m_data_len r = 5 /\ m_cred_uid r = 1000).
+Proof. exact stale_time_refuted. Qed.
+Print Assumptions C07_stale_time_refuted.
+
+(* ---- source-level tie of the fresh expiry check (tools/facts/cfun.py -> gen/GenCredFun.v: dec_validate_replay TRANSLATED
+        from the C text of dec.c on every run): after a successful replay_insert the clock is read AGAIN (clk) and the
+        credential is accepted only if clk <= time0 + ttl, otherwise EMUNGE_CRED_EXPIRED and the request owns nothing; this
+        is the second clock reading t2 of dec_process2 (CredPipe.dec_process_is_source / st_validate_replay_is_source) ---- *)
+From MV Require Import CredFun CredPipe.
+From MV.gen Require Import GenCredFun.
+Theorem C07_source_fresh_expiry_check : forall (cf : conf) (clk ins en c : Z) (m : msg),
+  src_dec_validate_replay cf clk ins en c m =
+  ((if (ins =? 0)%Z then (if (clk =? -1)%Z then e_snafu
+                          else if (clk >? Z.of_N (m_time0 m) + Z.of_N (m_ttl m))%Z then e_cred_expired else 0)
+    else if (ins >? 0)%Z
+         then (if cf_socket_retry cf && (0 <? m_retry m) && (m_retry m <=? c_retry_attempts) then 0 else e_cred_replayed)
+    else if (en =? 12)%Z then e_no_memory else e_snafu), m,
+   (if (ins =? 0)%Z && negb (clk =? -1)%Z && negb (clk >? Z.of_N (m_time0 m) + Z.of_N (m_ttl m))%Z then 1 else c)%Z).
+Proof. exact dec_validate_replay_is_source. Qed.
+Print Assumptions C07_source_fresh_expiry_check.
+Theorem C07_source_pipeline_is_model :
+  forall (hmac : N -> bytes -> bytes -> bytes) (sha1 : bytes -> bytes) (blk_dec : N -> bytes -> bytes -> bytes)
+         (zdecomp : N -> bytes -> N -> option bytes) (cf : conf) (mem : N -> N -> bool) (pu pg now now2 : N)
+         (rs : CredModel.rstate) (m : msg) (send_ok : bool),
+  let '(rc, s) := src_dec_process_msg (dec_ops hmac sha1 blk_dec zdecomp cf mem pu pg now now2 send_ok) (dinit m rs) in
+  let '(r, rs', k) := dec_process2 hmac sha1 blk_dec zdecomp cf mem rs m pu pg now now2 in
+  d_msg s = r /\ d_rs s = (if send_ok then rs' else dec_rollback rs' k) /\
+  rc = (if send_ok && dec_accepts hmac sha1 blk_dec zdecomp cf mem pu pg now now2 rs m then 0 else -1)%Z.
+Proof. exact dec_process_is_source. Qed.
+Print Assumptions C07_source_pipeline_is_model.
